@@ -159,3 +159,8 @@ CHECKS.update({
     "C26": ("6/C26", "In-process stack: {two sequential waits answered by two independent senders, one wait, a fan-out whose consumers are busy while the run is flagged idle, a delayed retry, a waiter timeout} x idle_timeout relative to the delays x all interleavings of idle-timer firings, releases, sends and step completions on the real server stack: live control loops per run <= 1 at every quiescent point, the run's state inspected at the instant of every release (nothing queued / running / scheduled), loops started <= releases + 1, every sent event in the tick log and reflected in the result. DBOS lifecycle: the real DBOSIdleReleaseDecorator + SqliteRunLifecycleLock with two replicas (separate decorator and lock instances) on one lifecycle DB file, each response delivered through either replica, and a releaser that stops between begin_release and complete_release with the clock jumping beyond CRASH_TIMEOUT_SECONDS.",
             "Known findings: the in-process release aborts a busy run when the engine announced idle spuriously (C03's root causes). DBOS half: one shared in-process runtime stands for the DBOS cluster; cross-process interleaving inside one lifecycle operation and Postgres are not modelled; bounded poll loop (6 polls).", ENGINE_TECH.replace("the real control loop", "the real server / idle-release stacks")),
 })
+
+CHECKS.update({
+    "C14": ("6/C14", "A step waiting out a retry delay D=8 s and a step whose wait_for_event timeout T=8 s is pending, on the real server stack over MemoryWorkflowStore / SqliteWorkflowStore with idle_timeout in {D/4, D, 4D} x {no restart, process stop after each of the first 7 persisted ticks + restart on the surviving store} x all orders of idle-timer, release and retry / timeout timer firings up to the horizon (every timer below 1000 s fired); at the horizon the handler must be completed with the retried / timed-out result.",
+            "Three known findings (timers live only in the runner's memory: lost on release and on restart; idle-flagged handlers are skipped at startup) cover every configuration in which the run is released or restarted before / around the timer; the remaining configurations (timer fires first, no restart) must hold and alarm otherwise.", CRASH_TECH),
+})
